@@ -636,6 +636,7 @@ func main() {
 		searchStreamSets(r, fam, ssd, &states, &trans, &samples)
 	}
 	constructors(r, &states, &trans)
+	payloadStreams(r, &states, &trans)
 	r.Cov["states"] = states
 	r.Cov["transitions"] = trans
 	r.Cov["traces_validated_against_impl"] = trans
